@@ -65,6 +65,10 @@ type poller struct {
 	// entails writing a single byte to the write end of the wakeupPipe.
 	posts []func()
 
+	// spare is the slice dispatch swaps with posts while it runs the handlers.
+	// Guarded by lck.
+	spare []func()
+
 	// lck synchronizes access to the posts slice.
 	// This is needed because multiple goroutines can call ioc.Post(...)
 	// on the same IO object.
@@ -211,12 +215,26 @@ func (p *poller) dispatch() {
 		}
 	}
 
+	// Run the handlers without holding lck: a handler may call Post itself, and
+	// other goroutines must not be blocked for as long as handlers run. The
+	// queue is swapped with a spare slice so that no allocation is needed in
+	// the steady state.
 	p.lck.Lock()
-	for _, handler := range p.posts {
+	posts := p.posts
+	p.posts = p.spare[:0]
+	p.spare = nil
+	p.lck.Unlock()
+
+	for i, handler := range posts {
+		posts[i] = nil
 		handler()
 		atomic.AddInt64(&p.pending, -1)
 	}
-	p.posts = p.posts[:0]
+
+	p.lck.Lock()
+	if p.spare == nil {
+		p.spare = posts[:0]
+	}
 	p.lck.Unlock()
 }
 
